@@ -41,7 +41,8 @@ type stubTransport struct {
 	// outbound
 	writes      []stubWrite
 	nwrites     int
-	writeFailAt map[int]bool // 1-based write numbers that fail
+	writeFailAt map[int]bool          // 1-based write numbers that fail
+	blockAt     map[int]chan struct{} // 1-based write numbers that stall until the channel is closed
 	shortWrite  map[int]bool
 	pings       int
 	pingFailAt  int
@@ -133,6 +134,12 @@ func (t *stubTransport) exhausted() bool {
 
 func (t *stubTransport) Write(p []byte) (int, error) {
 	t.mu.Lock()
+	if gate, ok := t.blockAt[t.nwrites+1]; ok {
+		delete(t.blockAt, t.nwrites+1)
+		t.mu.Unlock()
+		<-gate // a write stalled by the peer / the network
+		t.mu.Lock()
+	}
 	defer t.mu.Unlock()
 	t.nwrites++
 	if t.writeFailAt[t.nwrites] {
